@@ -1,3 +1,4 @@
+import Props.C13Facts
 import Props.C15
 open Model.C15
 #print axioms success_closes
@@ -23,3 +24,7 @@ open Model.C15
 #print axioms Model.traverseG_prefix
 #print axioms iter_range_gte_outside
 #print axioms iter_range_gt_outside
+open Model.C13 in
+#print axioms shape_iterator
+open Model.C13 in
+#print axioms iterator_sends_after_unlock
